@@ -6,7 +6,7 @@ open Kv Drv Jwks
   C13 line: `C13 case=<id> skip=<0|1> ns=<K> s0=<step> … s<K-1>=<step>`; a step is
     rot:<keys>:                      keys = kid.use.keyNo.kty.known joined by '/', '-' = empty
     start:<c>:<kid>:<alg>:<signer>:<pid>:<obs>
-    go:<c>:<obs> | cancel:<c>:<obs> | resp:<f>:<ok|e5xx|badjson>:<obs> | upd:<f>:<obs> | stuck:: | crash::
+    go:<c>:<obs> | cancel:<c>:<obs> | resp:<f>:<body class>:<status>:<wf 0|1>:<whole keys|!>:<first keys|!>:<obs> | upd:<f>:<obs> | stuck:: | crash::
   <obs> = what was observed while the step ran, joined by '/':
     h.c<c>.<point> | h.u<f>.<point> | g.u<f>.c<owner> (request reaches the endpoint) | x.u<f> (request aborted by
     its context) | fin.c<c>.<outcome class>
@@ -18,7 +18,8 @@ structure Step where
   id : Nat := 0
   tok : JWS := default
   keys : List ServedKey := []
-  resp : EndKind := .ok
+  ans : Answer := {}
+  cls : String := ""
   obs : List String := []
   deriving Inhabited
 
@@ -46,8 +47,10 @@ def parseStep (s : String) : Step :=
     { kind := "start", id := c.toNat?.getD 0, tok := mkTok kid alg (signer.toNat?.getD 0) (pid.toNat?.getD 0), obs := obsOf obs }
   | ["go", c, obs] => { kind := "go", id := c.toNat?.getD 0, obs := obsOf obs }
   | ["cancel", c, obs] => { kind := "cancel", id := c.toNat?.getD 0, obs := obsOf obs }
-  | ["resp", f, k, obs] =>
-    { kind := "resp", id := f.toNat?.getD 0, resp := if k == "ok" then .ok else if k == "e5xx" then .http5xx else .badJson, obs := obsOf obs }
+  | ["resp", f, cls, st, wf, whole, first, obs] =>
+    let ks (t : String) : Option (List ServedKey) := if t == "!" then none else some (parseServed t)
+    { kind := "resp", id := f.toNat?.getD 0, cls := cls,
+      ans := { status200 := st == "200", wellFormed := wf == "1", whole := ks whole, first := ks first }, obs := obsOf obs }
   | ["upd", f, obs] => { kind := "upd", id := f.toNat?.getD 0, obs := obsOf obs }
   | ["stuck", _, _] => { kind := "stuck" }
   | ["crash", _, _] => { kind := "crash" }
@@ -81,7 +84,7 @@ def obsTok (toks : List (Nat × JWS)) (t : String) : List Obs :=
     else if name == "published" then [.retire (numAfter p 1)]
     else [.point (.updater (numAfter p 1)) name]
   | ["g", u, c] => [.fetchBegin (numAfter u 1) (numAfter c 1)]
-  | ["x", u] => [.fetchEnd (numAfter u 1) .cancelled]
+  | ["x", u] => [.fetchEnd (numAfter u 1) none]
   | ["fin", c, cls] =>
     let cid := numAfter c 1
     let pid := match toks.find? (·.1 == cid) with
@@ -99,7 +102,7 @@ def observations (steps : List Step) : List Obs :=
     | "rot" => [Obs.rotate s.keys]
     | "start" => Obs.start s.id s.tok :: tail
     | "cancel" => Obs.cancel s.id :: tail
-    | "resp" => Obs.fetchEnd s.id s.resp :: tail
+    | "resp" => Obs.fetchEnd s.id (some s.ans) :: tail
     | _ => tail
 
 def outcomesText (steps : List Step) : String :=
@@ -114,7 +117,8 @@ def classOf (steps : List Step) : String :=
   let flag (b : Bool) (s : String) := if b then s else ""
   let rots := (steps.filter (·.kind == "rot")).length
   s!"n{n}f{f}" ++ flag (rots > 1) "R" ++ flag (steps.any (·.kind == "cancel")) "X"
-    ++ flag (steps.any fun s => s.kind == "resp" && s.resp != .ok) "E" ++ flag (obs.any (·.startsWith "x.")) "A"
+    ++ flag (steps.any fun s => s.kind == "resp" && (endOf (some s.ans)).1 != .ok) "E"
+    ++ flag (steps.any fun s => s.kind == "resp" && !s.ans.wellFormed && s.ans.first.isSome) "P" ++ flag (obs.any (·.startsWith "x.")) "A"
     ++ flag (obs.any (· |>.endsWith ".ok")) "+" ++ flag (obs.any fun o => o.endsWith ".nokey" || o.endsWith ".badsig") "-"
 
 /-- the unscheduled race-detector soak of the thorough tier (supporting evidence): no race report, no oracle failure -/
